@@ -1647,6 +1647,11 @@ static LY_ERR
 lyd_compare_single_schema(const struct lyd_node *node1, const struct lyd_node *node2, uint32_t options,
         ly_bool parental_schemas_checked)
 {
+    if (!node1->schema && !node2->schema && strcmp(LYD_NAME(node1), LYD_NAME(node2))) {
+        /* opaque nodes with different names */
+        return LY_ENOT;
+    }
+
     if (LYD_CTX(node1) == LYD_CTX(node2)) {
         /* same contexts */
         if (options & LYD_COMPARE_OPAQ) {
